@@ -7,6 +7,7 @@
 From Coq Require Import List Arith ZArith NArith Bool Lia.
 From Coq Require Import Sorting.Permutation.
 From SV Require Import C16.Model C16.Proofs C16.QModel C16.QProofs.
+From SV Require Import C16.DModel C16.DProofs.
 Import ListNotations.
 Open Scope N_scope.
 
@@ -287,4 +288,64 @@ Example limit_change_nonvacuous :
                           OTrack 0 (0, 0) None; OTrack 1 (0, 0) None; OSetLimit 2] in
   fwd_get (0, 0) (fwd (st_sm st)) = 2 /\
   at_limit (st_sm st) 2 (0, 0) None = true /\ at_limit (st_sm st) 1 (0, 0) None = false.
+Proof. vm_compute. repeat split. Qed.
+
+
+(* ------------------------------------------------------------------ *)
+(** * The gauges of the local metrics drain ([lib/src/metrics/local_drain.rs], model C16/DModel.v) *)
+
+(** 13. A gauge driven by relative updates that never take it below zero
+    (every decrement paired with an earlier increment) holds exactly the sum of
+    the updates — back at its starting value when they cancel — and no
+    underflow is counted; for any state of the drain in which the slot is live
+    (labels kept by the detail level, cluster neither switched off nor
+    removed), any slot, any such sequence. *)
+Theorem gauge_paired_updates_exact :
+  forall (d : drain) (sc : scope) (k : N) (ds : list Z),
+    slot_live d sc -> never_below (gauge_of d sc k) ds ->
+    gauge_of (adds d sc k ds) sc k = (gauge_of d sc k + fold_right Z.add 0 ds)%Z /\
+    d_under (adds d sc k ds) = d_under d.
+Proof. intros d sc k ds. apply adds_balance. Qed.
+
+(** 14. A relative update that would take a gauge below zero stores exactly 0
+    (never a wrapped value) and is counted once. *)
+Theorem gauge_underflow_clamps_and_is_counted :
+  forall (d : drain) (sc : scope) (k : N) (x : Z) (v : N),
+    slot_live d sc -> lookup d sc k = Some v -> (Z.of_N v + x < 0)%Z ->
+    lookup (receive d sc k (MAdd x)) sc k = Some 0 /\
+    d_under (receive d sc k (MAdd x)) = d_under d + 1.
+Proof. exact underflow_clamps. Qed.
+
+(** 15. Whatever the history, removing a cluster empties its rows (its own and
+    its backends') and what is received for it afterwards is dropped, until the
+    cluster is added again or the drain is cleared. *)
+Theorem removed_cluster_metrics_stay_gone :
+  forall (ops : list dop) (c : N) (sc sc' : scope) (k k' : N) (m : mval),
+    let d := drun (ops ++ [DRemoveCluster c]) in
+    scope_cluster sc = Some c ->
+    scope_cluster (filter_scope (d_detail d) sc') = Some c ->
+    lookup d sc k = None /\ receive d sc' k' m = d.
+Proof.
+  intros ops c sc sc' k k' m d S S'. unfold d, drun. rewrite fold_left_app. cbn [fold_left].
+  split; [apply remove_cluster_empties; exact S|].
+  apply (tombstoned_dropped _ sc' k' m c).
+  - unfold d, drun in S'. rewrite fold_left_app in S'. exact S'.
+  - apply remove_cluster_tombstones.
+Qed.
+
+Example gauge_theorems_nonvacuous :
+  let d0 := drun [DDetail 3] in
+  (* two sessions on backend (0,1): +1 +1 -1 -1 is back at 0, nothing counted *)
+  lookup (adds d0 (SBackend 0 1) 0 [1; 1; -1; -1]%Z) (SBackend 0 1) 0 = Some 0 /\
+  d_under (adds d0 (SBackend 0 1) 0 [1; 1; -1; -1]%Z) = 0 /\
+  (* a clear with one session in flight: its decrement is clamped and counted *)
+  let d1 := drun [DDetail 3; DRecv (SBackend 0 1) 0 (MAdd 1); DClear; DRecv (SBackend 0 1) 0 (MAdd 1);
+                  DRecv (SBackend 0 1) 0 (MAdd (-1)); DRecv (SBackend 0 1) 0 (MAdd (-1))] in
+  lookup d1 (SBackend 0 1) 0 = Some 0 /\ d_under d1 = 1 /\
+  (* a removed cluster: the late decrement is dropped, after add_cluster the row starts again *)
+  let d2 := drun [DRecv (SCluster 1) 0 (MAdd 1); DRemoveCluster 1; DRecv (SCluster 1) 0 (MAdd (-1))] in
+  lookup d2 (SCluster 1) 0 = None /\ d_under d2 = 0 /\
+  lookup (dstep (dstep d2 (DAddCluster 1)) (DRecv (SCluster 1) 0 (MAdd 2))) (SCluster 1) 0 = Some 2 /\
+  (* at the default detail level a backend label is folded into its cluster *)
+  lookup (drun [DRecv (SBackend 0 1) 1 (MGauge 7)]) (SCluster 0) 1 = Some 7.
 Proof. vm_compute. repeat split. Qed.
